@@ -931,7 +931,24 @@ impl Check for StakingCheck {
         let mut ops = vec![];
         let mut unbonding_time = unbonding_time;
         // scenario templates: shapes that random operations reach only rarely; random operations follow
-        match g.weighted(&[12, 2, 2]) {
+        let (mut apr, mut commissions, mut funds): (u128, Vec<u64>, Vec<u64>) = (apr, commissions, funds);
+        match g.weighted(&[12, 2, 2, 2]) {
+            3 => {
+                // rewards that are whole tokens although the per-token rate (total reward / total stake)
+                // does not terminate in 18 decimals: two delegators with 300k and 600k on one validator,
+                // 10 % a year, a third (or a ninth) of a year
+                let v = g.below(nval) as u8;
+                let k = g.range(1, 50);
+                apr = 100_000_000_000_000_000;
+                commissions[v as usize] = g.pick(&[0u64, 100_000_000_000_000_000]);
+                funds[0] = 300 * k + g.range(0, 5);
+                funds[1] = 600 * k + g.range(0, 5);
+                ops.push(SOp::Delegate(0, v, SAmt::Exact(300 * k), false));
+                ops.push(SOp::Delegate(1, v, SAmt::Exact(600 * k), false));
+                ops.push(SOp::Advance(if g.bool() { YEAR / 3 } else { YEAR / 9 * g.range(1, 9) }));
+                ops.push(SOp::Withdraw(0, v));
+                ops.push(SOp::Withdraw(1, v));
+            }
             1 => {
                 // a slash leaves the only delegator a sub-token remainder on a validator whose whole-token
                 // total is zero; time passes while the remainder is still there; a newcomer delegates
